@@ -18,6 +18,7 @@ import HumphreyModel.Driver.C11
 import HumphreyModel.Driver.C14
 import HumphreyModel.Driver.C20
 import HumphreyModel.Driver.C06
+import HumphreyModel.Driver.C12
 
 /-!
 Line-protocol driver. Each input line: `fn <TAB> arg… <TAB> impl-output`.
@@ -28,7 +29,7 @@ One `dispatch` per property lives in `HumphreyModel/Driver/Cxx.lean`.
 open Humphrey Humphrey.Driver
 
 def dispatchers : List (String → List String → String → Option Verdict) :=
-  [ C01.dispatch, C02.dispatch, C03.dispatch, C05.dispatch, C07.dispatch, C09.dispatch, C18a.dispatch, C18b.dispatch, C17.dispatch, C16.dispatch, C10.dispatch, C15.dispatch, C08.dispatch, C13.dispatch, C19.dispatch, C11.dispatch, C14.dispatch, C20.dispatch, C06.dispatch ]
+  [ C01.dispatch, C02.dispatch, C03.dispatch, C05.dispatch, C07.dispatch, C09.dispatch, C18a.dispatch, C18b.dispatch, C17.dispatch, C16.dispatch, C10.dispatch, C15.dispatch, C08.dispatch, C13.dispatch, C19.dispatch, C11.dispatch, C14.dispatch, C20.dispatch, C06.dispatch, C12.dispatch ]
 
 def dispatch (fn : String) (args : List String) (impl : String) : Verdict :=
   match dispatchers.findSome? (fun d => d fn args impl) with
